@@ -26,7 +26,8 @@ PairDiff(first, second, out) ==
   ELSE (IF AbsC(out.lat - LatUdeg(d, second.odd)) <= Tol THEN {} ELSE {"lat"})
        \cup (IF LonDiff(out.lon, LonUdeg(d)) <= Tol THEN {} ELSE {"lon"})
        \* (the recorder rounds to micro-degrees: 179.9999997 is logged as 180000000, so <= is the tightest sound bound)
-       \cup (IF out.lat >= -90000000 /\ out.lat <= 90000000 /\ out.lon >= -180000000 /\ out.lon <= 180000000
+       \* ... and the recorder says whether the unrounded values lie in [-90, 90] x [-180, 180): +180 is not in it)
+       \cup (IF out.lat >= -90000000 /\ out.lat <= 90000000 /\ out.lon >= -180000000 /\ out.lon <= 180000000 /\ out.inrange = 1
              THEN {} ELSE {"range"})
 
 \* zone count observable from a decode with the given "latest" parity at latitude index a
